@@ -146,9 +146,8 @@ impl<'a> LazyDbcParser<'a> {
     pub fn get_record(&self, index: u32) -> Result<Record> {
         if index >= self.header.record_count {
             return Err(Error::OutOfBounds(format!(
-                "Record index out of bounds: {} (max: {})",
-                index,
-                self.header.record_count - 1
+                "Record index out of bounds: {} (record count: {})",
+                index, self.header.record_count
             )));
         }
 
